@@ -181,12 +181,12 @@ TENTS = c14.TFORMS + [{"c0": 2, "cx": 0, "cy": 0}, {"c0": -3, "cx": 0, "cy": 1}]
 def random_tree(rnd, depth, wide=False):
     """expression tree over 2x2 boxes on one wire: then / bubble (single-wire) / at the top, optionally, tensor"""
     if wide:
-        return {"op": "tensor", "l": random_tree(rnd, depth - 1), "r": random_tree(rnd, depth - 1)}
+        return {"op": rnd.choice(["tensor", "plus"]), "l": random_tree(rnd, depth - 1), "r": random_tree(rnd, depth - 1)}
     r = rnd.random()
     if depth <= 0 or r < 0.3:
         const = rnd.random() < 0.25
         ents = [rnd.choice([e for e in TENTS if not (e["cx"] or e["cy"])] if const else TENTS) for _ in range(4)]
-        return {"op": "box", "ents": ents}
+        return {"op": "box", "ents": ents, "dg": int(rnd.random() < 0.3)}
     if r < 0.65:
         return {"op": "then", "l": random_tree(rnd, depth - 1), "r": random_tree(rnd, depth - 1)}
     inner = random_tree(rnd, depth - 1)
@@ -244,7 +244,12 @@ def tree_fits(tree, pt):
             e = n["ents"]
             val = [Fr(f["c0"] + f["cx"] * pt[0] + f["cy"] * pt[1], 8) for f in e]
             der = [Fr(f["cx"] if v == "x" else f["cy"]) for f in e]
+            if n.get("dg"):
+                val, der = [val[0], val[2], val[1], val[3]], [der[0], der[2], der[1], der[3]]
             return [val[:2], val[2:]], [der[:2], der[2:]]
+        if n["op"] == "plus":
+            (a, da), (b, db) = ev(n["l"], v), ev(n["r"], v)
+            return add(a, b), add(da, db)
         if n["op"] in ("then", "tensor"):
             (a, da), (b, db) = ev(n["l"], v), ev(n["r"], v)
             op = matmul if n["op"] == "then" else kron
@@ -267,10 +272,23 @@ def _has_bubble(n):
 
 def describe_tree(n):
     if n["op"] == "box":
-        return "[%s]" % " ".join("%d%+dx%+dy" % (e["c0"], e["cx"], e["cy"]) for e in n["ents"])
+        return "[%s]%s" % (" ".join("%d%+dx%+dy" % (e["c0"], e["cx"], e["cy"]) for e in n["ents"]), "+" if n.get("dg") else "")
     if n["op"] == "bubble":
         return "%s(%s)" % (n["fn"], describe_tree(n["l"]))
-    return "(%s %s %s)" % (describe_tree(n["l"]), ">>" if n["op"] == "then" else "@", describe_tree(n["r"]))
+    return "(%s %s %s)" % (describe_tree(n["l"]), {"then": ">>", "tensor": "@", "plus": "+"}[n["op"]], describe_tree(n["r"]))
+
+
+def rsyms():
+    """real symbols: the adjoint of a box conjugates its entries, and the derivative of conjugate(x) only is a number
+    when x is known to be real"""
+    import sympy
+    return sympy.Symbol("x", real=True), sympy.Symbol("y", real=True)
+
+
+def rexpr(f):
+    import sympy
+    x, y = rsyms()
+    return sympy.Rational(f["c0"], 8) + f["cx"] * x + f["cy"] * y
 
 
 def build_tree(n, counter):
@@ -278,7 +296,10 @@ def build_tree(n, counter):
     from discopy.tensor import Dim
     if n["op"] == "box":
         counter[0] += 1
-        return tensor.Box("f%d" % counter[0], Dim(2), Dim(2), [c14.expr_of(e) for e in n["ents"]])
+        box = tensor.Box("f%d" % counter[0], Dim(2), Dim(2), [rexpr(e) for e in n["ents"]])
+        return box.dagger() if n.get("dg") else box
+    if n["op"] == "plus":
+        return build_tree(n["l"], counter) + build_tree(n["r"], counter)
     if n["op"] == "then":
         return build_tree(n["l"], counter) >> build_tree(n["r"], counter)
     if n["op"] == "tensor":
@@ -290,7 +311,7 @@ def observe_tree(args):
     tree, v, pt = args
     import numpy as np
     import sympy
-    x, y = c14.syms()
+    x, y = rsyms()
     S = {"x": x, "y": y}
     at = [(x, sympy.Rational(pt[0], 8)), (y, sympy.Rational(pt[1], 8))]
 
@@ -298,7 +319,8 @@ def observe_tree(args):
         if isinstance(T, (int, float)) and T == 0:
             return []                              # the empty sum evaluates to the number 0
         return [complex(sympy.N(sympy.sympify(e).subs(at), 30)) for e in np.asarray(T.array).flatten()]
-    rec = {"build": "", "fs": [], "terms": -1, "grad": None, "grad_exc": "", "val": None, "val_exc": "", "jac": None, "jac_exc": ""}
+    rec = {"build": "", "fs": [], "terms": -1, "grad": None, "grad_exc": "", "val": None, "val_exc": "", "jac": None, "jac_exc": "",
+           "gsub": None, "gsub_exc": "", "g2": None, "g2_exc": ""}
     try:
         d = build_tree(tree, [0])
         rec["fs"] = sorted(str(s) for s in d.free_symbols)
@@ -313,6 +335,14 @@ def observe_tree(args):
         g = d.grad(S[v])
         rec["terms"] = len(g.terms) if hasattr(g, "terms") else -2
         rec["grad"] = entries(g.eval())
+        # the gradient is a diagram like any other: substituting the point into it and then evaluating it must give
+        # the same numbers (no symbol is left, so nothing is substituted after the evaluation)
+        try:
+            T = g.subs(at).eval()
+            rec["gsub"] = [] if isinstance(T, (int, float)) and T == 0 else \
+                [complex(sympy.N(sympy.sympify(e), 30)) for e in np.asarray(T.array).flatten()]
+        except Exception as e:
+            rec["gsub_exc"] = type(e).__name__
     except Exception as e:
         rec["grad_exc"] = type(e).__name__
     try:
@@ -341,6 +371,12 @@ def judge_tree(o, e, v):
         return "gradient-of-independent-diagram-is-not-the-empty-sum"
     if not tcmp(e["dx"] if v == "x" else e["dy"], o["grad"]):
         return "gradient-does-not-evaluate-to-the-derivative-of-the-evaluation"
+    if o["gsub_exc"]:
+        return "substituting-the-point-into-the-gradient-raised"
+    if not tcmp(e["dx"] if v == "x" else e["dy"], o["gsub"]):
+        return "gradient-with-the-point-substituted-does-not-evaluate-to-the-derivative"
+    if e.get("plus"):
+        return "ok"                 # (jacobian is a method of diagrams, not of formal sums)
     if o["jac_exc"]:
         return "jacobian-raised"
     rows, cols = e["rows"], e["cols"]
@@ -379,9 +415,16 @@ def tensor_leg(work, rnd, n, rejected, clauses):
     if drift:
         print("MODEL-DRIFT: C15 tensor leg: %d evaluations of the undifferentiated diagram differ from Trace_GradT's value" % drift)
     # canary
-    k = next(i for i, (o, e) in enumerate(zip(obs, exp)) if judge_tree(o, e, items[i][1]) == "ok" and o["grad"] and
-             max(abs(z) for z in o["grad"]) > 0.2)
-    bad = dict(obs[k], grad=[z * 2 for z in obs[k]["grad"]])
+    # (the candidate is judged with its substituted route set to its evaluated route, so that a tree-wide failure of one
+    #  route is reported as violations and not as a missing canary)
+    same = lambda o: dict(o, gsub=o["grad"], gsub_exc="")
+    k = next((i for i, (o, e) in enumerate(zip(obs, exp)) if o["grad"] and judge_tree(same(o), e, items[i][1]) == "ok" and
+              max(abs(z) for z in o["grad"]) > 0.2), None)
+    if k is None:
+        if rejected:
+            return {"cases": len(items), "ok": ok, "canary": "no accepted gradient to corrupt (violations reported)"}
+        raise core.Machinery("no candidate for the tensor-gradient canary")
+    bad = dict(obs[k], grad=[z * 2 for z in obs[k]["grad"]], gsub=obs[k]["grad"], gsub_exc="")
     if judge_tree(bad, exp[k], items[k][1]) == "ok":
         raise core.Machinery("tensor-gradient canary accepted")
     return {"cases": len(items), "ok": ok, "with_bubbles": sum(1 for t, _, _ in items if _has_bubble(t)),
